@@ -2,7 +2,7 @@
 
 xh : ``_fetch_and_resolve`` (real bytecode, together with the real ``_dispatch_log_or_error`` it imports);
      environment re-globalised: ``fetch_url`` returns an opaque blob, ``hashlib.sha256`` is an ideal hash whose
-     digest is a symbolic string, ``ipc.open_stream``/``ValidatedReader`` yield a *symbolic* sequence of <= 3
+     digest equals or differs from the expected one (symbolic), ``ipc.open_stream``/``ValidatedReader`` yield a *symbolic* sequence of <= 3
      batches.  Each batch is described by independent symbolic flags: zero rows?, metadata present?, carries
      ``vgi_rpc.location``?, carries log level / log message?, level EXCEPTION?, schema equal to the pointer's?
 
@@ -30,8 +30,8 @@ from vgi_rpc.rpc import _wire as wire
 
 PROPERTY = "C30"
 ENCODED = [ext._fetch_and_resolve, wire._dispatch_log_or_error]
-_NB = 3
-BOUNDS = "payloads of 0..%d batches, every combination of the 7 per-batch flags, expected/actual digests any strings <= 2 chars or no expected digest" % _NB
+_NB = pick(2, 3)
+BOUNDS = "payloads of 0..%d batches, every combination of the 7 per-batch flags, expected digest absent / equal to / different from the payload's (ideal hash)" % _NB
 OUTSIDE = (
     "transparency of offload (maybe_externalize_* -> storage -> fetch -> identical batches: Arrow, storage and aiohttp); the HTTP fetch itself "
     "(C31); SHA-256 (ideal hash); the retry wrapper resolve_external_location (tenacity is not installed here); Arrow's schema equality"
@@ -44,6 +44,8 @@ ASSUMPTIONS = [
 ]
 
 _URL = "https://storage.invalid/blob/1?sig=s3cr3t"
+_EXP = "e" * 64
+_OTHER = "0" * 64
 _HOLD: dict = {}
 
 
@@ -85,27 +87,84 @@ _EXPECTED = _ExpectedSchema()
 
 
 class _Meta:
-    """custom_metadata with concrete keys; presence of each key decided by the flags."""
+    """custom_metadata with concrete keys.  Either an explicit pair list, or lazily flag-driven: whether a key is
+    present is decided (forked) only when the code asks for that key."""
 
-    def __init__(self, pairs):  # type: ignore[no-untyped-def]
+    def __init__(self, pairs=None, idx=0, loc=False, lvl=False, msg=False, exc=False):  # type: ignore[no-untyped-def]
         self.pairs = pairs
+        self.idx, self.loc, self.lvl, self.msg, self.exc = idx, loc, lvl, msg, exc
 
     def get(self, key, default=None):  # type: ignore[no-untyped-def]
-        for k, v in self.pairs:
-            if k == key:
-                return v
+        if self.pairs is not None:
+            for k, v in self.pairs:
+                if k == key:
+                    return v
+            return default
+        if key == LOCATION_KEY:
+            return b"https://elsewhere.invalid/x" if self.loc else default
+        if key == LOG_LEVEL_KEY:
+            if not self.lvl:
+                return default
+            return _LazyLevel(self)  # which level it is gets decided when the value is looked at
+        if key == LOG_MESSAGE_KEY:
+            return b"note" if self.msg else default
+        if key == b"user.key":
+            return b"u%d" % self.idx
         return default
 
     def items(self):  # type: ignore[no-untyped-def]
-        return list(self.pairs)
+        if self.pairs is not None:
+            return list(self.pairs)
+        out = []
+        for k in (b"user.key", LOCATION_KEY, LOG_LEVEL_KEY, LOG_MESSAGE_KEY):
+            v = self.get(k)
+            if v is not None:
+                out.append((k, v))
+        return out
 
     def __getattr__(self, name: str):  # type: ignore[no-untyped-def]
         raise HarnessModelError("metadata." + name + " not modelled")
 
 
+class _LazyLevel:
+    """The bytes value of vgi_rpc.log_level; EXCEPTION or INFO is decided on first use."""
+
+    def __init__(self, meta):  # type: ignore[no-untyped-def]
+        self.meta = meta
+
+    def decode(self, *a):  # type: ignore[no-untyped-def]
+        return Level.EXCEPTION.value if self.meta.exc else Level.INFO.value
+
+    def __eq__(self, o):  # type: ignore[no-untyped-def]
+        return self.decode().encode() == o
+
+    __hash__ = None  # type: ignore[assignment]
+
+
+class _MergedMeta:
+    """merge_metadata(base, extra) without enumerating base (extra wins)."""
+
+    def __init__(self, base, extra):  # type: ignore[no-untyped-def]
+        self.base, self.extra = base, extra
+
+    def get(self, key, default=None):  # type: ignore[no-untyped-def]
+        v = self.extra.get(key)
+        if v is not None:
+            return v
+        return default if self.base is None else self.base.get(key, default)
+
+
 class _Batch:
-    def __init__(self, idx, zero, cm, schema):  # type: ignore[no-untyped-def]
-        self.idx, self.num_rows, self.cm, self.schema = idx, (0 if zero else 1), cm, schema
+    def __init__(self, idx, zero, has_cm, meta, schema):  # type: ignore[no-untyped-def]
+        self.idx, self.zero, self.has_cm, self.meta, self.schema = idx, zero, has_cm, meta, schema
+
+    @property
+    def cm(self):  # type: ignore[no-untyped-def]
+        return self.meta if self.has_cm else None
+
+    @property
+    def num_rows(self):  # type: ignore[no-untyped-def]
+        return 0 if self.zero else 1
 
 
 class _Reader:
@@ -149,7 +208,7 @@ class _Hashlib:
 class _Pa:
     @staticmethod
     def KeyValueMetadata(d):  # type: ignore[no-untyped-def]
-        return _Meta(list(d.items()))
+        return _Meta(list(d.items()))  # explicit pairs
 
     def __getattr__(self, name: str):  # type: ignore[no-untyped-def]
         raise HarnessModelError("pa." + name + " not modelled")
@@ -169,12 +228,9 @@ def _fetch(url, fetch_config, url_validator=None):  # type: ignore[no-untyped-de
 
 
 def _merge(*mds):  # type: ignore[no-untyped-def]
-    out: list = []
-    for md in mds:
-        if md is not None:
-            for k, v in md.items():
-                out = [(k2, v2) for k2, v2 in out if k2 != k] + [(k, v)]
-    return _Meta(out) if out else None
+    if len(mds) != 2 or not isinstance(mds[1], _Meta) or mds[1].pairs is None:
+        raise HarnessModelError("merge_metadata used in an unexpected shape")
+    return _MergedMeta(mds[0], mds[1])
 
 
 class _Cfg:
@@ -190,14 +246,7 @@ _STUBS = ["fetch_url := opaque blob", "hashlib := ideal sha256", "ValidatedReade
 
 
 def _mk_batch(i, zero, has_cm, loc, lvl, msg, exc, same):  # type: ignore[no-untyped-def]
-    pairs = [(b"user.key", b"u%d" % i)]
-    if loc:
-        pairs.append((LOCATION_KEY, b"https://elsewhere.invalid/x"))
-    if lvl:
-        pairs.append((LOG_LEVEL_KEY, Level.EXCEPTION.value.encode() if exc else Level.INFO.value.encode()))
-    if msg:
-        pairs.append((LOG_MESSAGE_KEY, b"note"))
-    return _Batch(i, zero, _Meta(pairs) if has_cm else None, _Schema(same))
+    return _Batch(i, zero, has_cm, _Meta(None, i, loc, lvl, msg, exc), _Schema(same))
 
 
 def _oracle(batches, has_expected, digest_equal):  # type: ignore[no-untyped-def]
@@ -238,9 +287,6 @@ def _run(n, flags, has_expected, expected, actual):  # type: ignore[no-untyped-d
     return batches, res, exc, logs
 
 
-_PRE = """
-    pre: 0 <= n <= _NB and len(expected) <= 2 and len(actual) <= 2
-"""
 
 
 # ---------------------------------------------------------------------------
@@ -307,7 +353,7 @@ def _replay_table(args: dict) -> str | None:
     # a stream has a single schema: replay the counterexample with 'schema differs' applied to the whole payload
     other = any((not f[6]) for f in flags[:n])
     flags = [f[:6] + ((not other),) for f in flags]
-    deq = args["expected"] == args["actual"]
+    deq = args["digest_equal"]
     res, exc, logs = _real_call(n, flags, args["has_expected"], deq)
     want = _oracle([_mk_batch(i, *flags[i]) for i in range(n)], args["has_expected"], deq)
     got_ok = exc is None
@@ -323,7 +369,7 @@ def _replay_logs(args: dict) -> str | None:
     n = args["n"]
     other = any((not f[6]) for f in flags[:n])
     flags = [f[:6] + ((not other),) for f in flags]
-    deq = args["expected"] == args["actual"]
+    deq = args["digest_equal"]
     res, exc, logs = _real_call(n, flags, args["has_expected"], deq)
     if exc is not None and logs:
         return (f"real _fetch_and_resolve rejected a payload of {n} batches with {type(exc).__name__}: {str(exc)[:80]!r} — after handing "
@@ -333,20 +379,20 @@ def _replay_logs(args: dict) -> str | None:
 
 @cond(q=60, t=300, stubs=_STUBS, encoded=[ext._fetch_and_resolve, wire._dispatch_log_or_error], bound=BOUNDS, replay=_replay_table,
       signature=lambda a, c: "C30:fetch-and-resolve:decision-differs")
-def payload_returned_iff_all_checks_pass(n: int, has_expected: bool, expected: str, actual: str,
+def payload_returned_iff_all_checks_pass(n: int, has_expected: bool, digest_equal: bool,
                                          z0: bool, c0: bool, l0: bool, v0: bool, m0: bool, x0: bool, s0: bool,
                                          z1: bool, c1: bool, l1: bool, v1: bool, m1: bool, x1: bool, s1: bool,
                                          z2: bool, c2: bool, l2: bool, v2: bool, m2: bool, x2: bool, s2: bool) -> bool:
     """
-    pre: 0 <= n <= _NB and len(expected) <= 2 and len(actual) <= 2
+    pre: 0 <= n <= _NB
     post: _
     """
     flags = [(z0, c0, l0, v0, m0, x0, s0), (z1, c1, l1, v1, m1, x1, s1), (z2, c2, l2, v2, m2, x2, s2)]
     try:
-        batches, res, exc, logs = _run(n, flags, has_expected, expected, actual)
+        batches, res, exc, logs = _run(n, flags, has_expected, _EXP, _EXP if digest_equal else _OTHER)
     except HarnessModelError:
         return False
-    want = _oracle(batches, has_expected, expected == actual)
+    want = _oracle(batches, has_expected, digest_equal)
     if _HOLD.get("fetches") != 1:
         return False
     if want[0] == "err":
@@ -366,7 +412,7 @@ def payload_returned_iff_all_checks_pass(n: int, has_expected: bool, expected: s
     if batch is not want[1]:
         return False
     # the data batch's own metadata survives, plus provenance; the secret-bearing URL is recorded as source only
-    if cm is None or cm.get(b"user.key") != (b"u%d" % batch.idx if batch.cm is not None else None):
+    if cm is None or cm.get(b"user.key") != ((b"u%d" % batch.idx) if batch.cm is not None else None):
         return False
     if cm.get(LOCATION_SOURCE_KEY) != _URL.encode() or cm.get(LOCATION_FETCH_MS_KEY) is None or cm.get(LOCATION_KEY) is not None:
         return False
@@ -376,17 +422,17 @@ def payload_returned_iff_all_checks_pass(n: int, has_expected: bool, expected: s
 
 @cond(q=60, t=300, stubs=_STUBS, encoded=[ext._fetch_and_resolve, wire._dispatch_log_or_error], bound=BOUNDS, replay=_replay_logs,
       signature=lambda a, c: "C30:fetch-and-resolve:logs-dispatched-before-rejection")
-def nothing_of_a_rejected_payload_reaches_on_log(n: int, has_expected: bool, expected: str, actual: str,
+def nothing_of_a_rejected_payload_reaches_on_log(n: int, has_expected: bool, digest_equal: bool,
                                                  z0: bool, c0: bool, l0: bool, v0: bool, m0: bool, x0: bool, s0: bool,
                                                  z1: bool, c1: bool, l1: bool, v1: bool, m1: bool, x1: bool, s1: bool,
                                                  z2: bool, c2: bool, l2: bool, v2: bool, m2: bool, x2: bool, s2: bool) -> bool:
     """
-    pre: 0 <= n <= _NB and len(expected) <= 2 and len(actual) <= 2
+    pre: 0 <= n <= _NB
     post: _
     """
     flags = [(z0, c0, l0, v0, m0, x0, s0), (z1, c1, l1, v1, m1, x1, s1), (z2, c2, l2, v2, m2, x2, s2)]
     try:
-        batches, res, exc, logs = _run(n, flags, has_expected, expected, actual)
+        batches, res, exc, logs = _run(n, flags, has_expected, _EXP, _EXP if digest_equal else _OTHER)
     except HarnessModelError:
         return False
     if exc is None:
@@ -394,5 +440,5 @@ def nothing_of_a_rejected_payload_reaches_on_log(n: int, has_expected: bool, exp
     if logs and is_open("C30:fetch-and-resolve:logs-dispatched-before-rejection"):
         # listed finding: log batches preceding the offending batch are dispatched while the stream is still being read;
         # carved out exactly: the digest (when expected) was right, i.e. the bytes are the ones the pointer named
-        return not (has_expected and expected != actual)
+        return not (has_expected and not digest_equal)
     return len(logs) == 0
